@@ -33,11 +33,22 @@ def main():
     prop, src, name = sys.argv[1], sys.argv[2], sys.argv[3]
     tier = "quick"
     also = []
+    recheck = False
     args = sys.argv[4:]
     while args:
         a = args.pop(0)
         if a == "--tier": tier = args.pop(0)
         if a == "--also": also = args.pop(0).split(",")
+        if a == "--recheck": recheck = True
+    if recheck:
+        # only re-run the checks against an already confirmed change (src = the seeded directory itself)
+        meta = json.load(open(os.path.join(src, "meta.json")))
+        also = [c for c in meta.get("checks", {}) if c != prop] if not also else also
+        meta["checks"] = {}
+        run_checks(meta, os.path.abspath(os.path.join(src, "patch.diff")), prop, also, tier)
+        json.dump(meta, open(os.path.join(src, "meta.json"), "w"), indent=1)
+        print("%s-%s recheck detected=%s" % (prop, name, {k: (v["exit"], v["clauses"]) for k, v in meta["checks"].items()}))
+        return
     patch = os.path.join(src, "patch.diff")
     demos = [f for f in os.listdir(src) if f.endswith("_test.go")]
     notes = open(os.path.join(src, "NOTES.md")).read() if os.path.exists(os.path.join(src, "NOTES.md")) else ""
@@ -100,26 +111,31 @@ def main():
     good = all(meta["confirmed"].get(k) for k in ("applies", "builds", "suite_passes_with_change", "demo_fails_with_change", "demo_passes_without_change"))
     meta["kept"] = good
     if good:
-        rc, out = run(["git", "-C", "/repo", "status", "--porcelain"])
-        if out.strip():
-            print("/repo is not clean; refusing to apply"); sys.exit(2)
-        run(["git", "-C", "/repo", "apply", patch])
-        try:
-            for cid in [prop] + also:
-                t0 = time.time()
-                rc, out = run(["/verif/bin/check", cid, tier], "/verif")
-                viol = [l for l in out.splitlines() if l.startswith("VIOLATION")]
-                clauses = sorted(set(re.findall(r"clause=([\w\-]+)", out)))
-                meta["checks"][cid] = {"exit": rc, "violation_lines": len(viol), "clauses": clauses, "summary": out.strip().splitlines()[-1][:300] if out.strip() else "", "wall_s": round(time.time() - t0, 1),
-                                       "first_violation": "\n".join(out.splitlines()[:4])[:900] if viol else ""}
-        finally:
-            run(["git", "-C", "/repo", "checkout", "--", "."])
-            rc, out = run(["git", "-C", "/repo", "status", "--porcelain"])
-            for l in out.splitlines():
-                if l.startswith("??"):
-                    pth = os.path.join("/repo", l[3:])
-                    if os.path.isfile(pth): os.remove(pth)
+        run_checks(meta, patch, prop, also, tier)
     finish(meta, src, prop, name, demos, notes)
+
+def run_checks(meta, patch, prop, also, tier):
+    rc, out = run(["git", "-C", "/repo", "status", "--porcelain"])
+    if out.strip():
+        print("/repo is not clean; refusing to apply"); sys.exit(2)
+    rc, out = run(["git", "-C", "/repo", "apply", os.path.abspath(patch)])
+    if rc != 0:
+        print("patch did not apply to /repo:", out); sys.exit(2)
+    try:
+        for cid in [prop] + also:
+            t0 = time.time()
+            rc, out = run(["/verif/bin/check", cid, tier], "/verif")
+            viol = [l for l in out.splitlines() if l.startswith("VIOLATION")]
+            clauses = sorted(set(re.findall(r"clause=([\w\-]+)", out)))
+            meta["checks"][cid] = {"exit": rc, "violation_lines": len(viol), "clauses": clauses, "summary": out.strip().splitlines()[-1][:300] if out.strip() else "", "wall_s": round(time.time() - t0, 1),
+                                   "first_violation": "\n".join(out.splitlines()[:4])[:900] if viol else ""}
+    finally:
+        run(["git", "-C", "/repo", "checkout", "--", "."])
+        rc, out = run(["git", "-C", "/repo", "status", "--porcelain"])
+        for l in out.splitlines():
+            if l.startswith("??"):
+                pth = os.path.join("/repo", l[3:])
+                if os.path.isfile(pth): os.remove(pth)
 
 def finish(meta, src, prop, name, demos, notes):
     dst = "/verif/seeded/%s-%s" % (prop, name)
